@@ -13,6 +13,9 @@ line-abs   P <instr>*               abstract program: Spec encoding, then as lin
 line-hdr   <e> <asz> <off> <compdir|~> <compname|~> <section-hex>
 line-hexp  <e> <asz> <section-hex> <dirs> <files>   tables only (the Rust side compares them with
                                     what the generator encoded)
+line-dump  <e> <asz> <off> <section-hex> <rows>     rows of the unit at `off` in llvm-dwarfdump's
+                                    columns (the Rust side compares them with `<rows>`, taken from
+                                    `llvm-dwarfdump --debug-line` on a compiler-built binary)
 line-prog  <e> <asz> <section-hex>  header + rows + sequences + file table from raw bytes
 ```
 -/
@@ -218,13 +221,27 @@ def handle (op : String) (args : List String) : Option String :=
     let sec ← parseHex sec
     pure ((program e sec 0 asz none none).render fun h =>
       s!"{listS attrS h.dirs} {listS fileS h.files}")
+  | "line-dump", [e, asz, off, sec, _] => do
+    let e ← endian? e
+    let asz ← nat? asz
+    let off ← nat? off
+    let sec ← parseHex sec
+    pure ((program e sec off asz none none).render fun h =>
+      listS (fun ev => match ev with
+        | Ev.row r =>
+          let flags := b01 r.isStmt + 2 * b01 r.basicBlock + 4 * b01 r.endSequence + 8 * b01 r.prologueEnd +
+            16 * b01 r.epilogueBegin
+          s!"{r.address},{r.line},{r.column},{r.file},{r.isa},{r.discriminator},{flags}"
+        | other => evS other) (run h.p h.program))
   | "line-prog", [e, asz, sec] => do
     let e ← endian? e
     let asz ← nat? asz
     let sec ← parseHex sec
     pure ((program e sec 0 asz none none).render fun h =>
       let files := h.files ++ definedFiles h.p (h.program.length + 1) h.program
-      s!"{h.p.version} {h.p.addrSize} {evsS (run h.p h.program)} / {seqsS h.p (sequences h.p h.program)} / {listS fileS files}")
+      -- rows through the call-by-call mirror of `next_row` (= `run`, `Props.C04.next_row_iteration`)
+      let evs := collect h.p (h.program.length + 1) (Row.new h.p) h.program
+      s!"{h.p.version} {h.p.addrSize} {evsS evs} / {seqsS h.p (sequences h.p h.program)} / {listS fileS files}")
   | _, _ => none
 
 end Gimli.Drv.C04
